@@ -566,6 +566,19 @@ func runC03(c *core.Ctx) {
 		}
 		sort.Strings(sfoods)
 		checkBal(c, srv, balCase{files: w.Files(), amounts: samt, abs: sabs, element: x, exact: w.Exact, foods: sfoods, label: "random world -s " + x})
+		if i%4 == 2 && strings.TrimSpace(x) == x {
+			// the element's name with a blank, a colon or quotes around it is another name: nothing in this book has it,
+			// so its balance is the empty tree
+			d := []string{x + "\u00a0", " " + x, x + ":", "\"" + x + "\"", "\u3000" + x, x + " "}[r.Intn(6)]
+			known := false
+			for _, n := range w.Elements() {
+				known = known || n == d
+			}
+			if !known {
+				checkBal(c, srv, balCase{files: w.Files(), amounts: map[string]*big.Rat{}, abs: map[string]*big.Rat{}, element: d, exact: w.Exact, foods: nil, label: "random world -s with a decorated name"})
+				c.Count("single_element_balances_for_a_decorated_name", 1)
+			}
+		}
 		if i < 2 {
 			c.Sample(map[string]any{"part": "random", "food.yaml": clip(w.BookText, 600), "log.yaml": clip(w.LogText, 600), "element": x})
 		}
